@@ -404,7 +404,7 @@ def run_property(mod, tier, seed, only_source=None):
             rule=mod.RULE,
             samples=agg.samples[:8] or ["(none)"],
             per_source=per_source,
-            labels=dict(agg.labels.most_common(80)),
+            labels=dict(agg.labels.most_common(400)),
             discards=dict(agg.discards),
             known_findings_seen=dict(agg.known),
             unconfirmed_failures=flaky,
